@@ -12,7 +12,9 @@ HARNESSES = ("auth_h",)
 MLS = ("auth",)
 THEOREMS = ["C08_do_work_total", "C08_identity_invariant", "C08_authenticated_only_after_valid_exchange", "C08_no_data_before_begin",
             "C08_bounded_rejections", "C08_buffer_bound", "C08_transport_gate", "C08_anonymous_only_if_enabled",
-            "C08_responses_partial", "C08_responses_partial_run", "C08_responses_refuted_odd_hex", "C08_skip_blank_never_aborts"]
+            "C08_responses_partial", "C08_responses_partial_run", "C08_responses_refuted_odd_hex", "C08_skip_blank_never_aborts",
+            "C08_keyring_line_sound", "C08_keyring_line_complete", "C08_keyring_line_refuted", "C08_keyring_context",
+            "C08_cookie_only_from_keyring", "C08_announced_key_recent", "C08_no_origin_no_cookie", "C08_chunking_independent"]
 
 PUID = os.getuid()
 DEFAULT_CTX = b"org_freedesktop_general"
@@ -71,19 +73,46 @@ def eff_ctx(c):
     return DEFAULT_CTX if c["ctx"] is None else c["ctx"] + DEFAULT_CTX[len(c["ctx"]):]
 
 
+def key_items(c):
+    """keyring file items of a case: ("K", idtext, age, secrettext, sep, timeprefix) or ("R", rawline); `keys` triples are shorthand"""
+    its = [("K", str(i).encode(), age, sec.encode(), b" ", b"") for (i, age, sec) in c.get("keys", [])]
+    return its + list(c.get("items", []))
+
+
+def item_str(it):
+    if it[0] == "R":
+        return "R" + hx(it[1])
+    return "K%s,%d,%s,%s,%s" % (hx(it[1]), it[2], hx(it[3]), hx(it[4]), hx(it[5]))
+
+
+def item_line(it, now):
+    """the line the harness writes for an item when its clock says `now`"""
+    if it[0] == "R":
+        return it[1]
+    return it[1] + it[4] + it[5] + str(now - it[2]).encode() + it[4] + it[3]
+
+
+def file_writable(ctx, kdir):
+    return kdir != "none" and b"/" not in ctx and len(ctx) > 0
+
+
+def world_str(items, ctx, kdir, now, keyfile):
+    """environment of the keyring model: clock, file lines as written, directory state, keys the server created (read back from the file)"""
+    lines = [item_line(it, now) for it in items] if file_writable(ctx, kdir) else []
+    initial = set(it[3].decode("latin-1").lower() for it in items if it[0] == "K")
+    newkeys = []
+    if keyfile not in (None, "-"):
+        for ent in keyfile.split("/"):
+            f = ent.split(":")
+            if len(f) == 3 and f[2].lower() not in initial and re.fullmatch(r"[0-9a-f]{48}", f[2]):
+                newkeys.append("%s:%s" % (f[0], f[2]))
+    return "now=%d file=%s dirp0=%d dirp=%d newkeys=%s" % (
+        now, "/".join(hx(l) if l else "_" for l in lines) or "-", 1 if kdir == "ok" else 0, 0 if kdir == "bad" else 1, "/".join(newkeys) or "-")
+
+
 def impl_line(c):
-    keys = "/".join("%d:%d:%s" % k for k in c["keys"]) or "-"
-    return "auth %s ctx=%s keys=%s kdir=%s steps=%s" % (env_str(c), "-" if c["ctx"] is None else hx(c["ctx"]), keys, c["kdir"], ",".join(step_str(s) for s in c["steps"]))
-
-
-def context_valid(ctx):
-    """_dbus_keyring_validate_context (environment oracle for e_keyring_ok)"""
-    return len(ctx) > 0 and all(0 < b < 128 for b in ctx) and not any(ch in ctx for ch in b"/\\. \t\n\r")
-
-
-def key_loaded(age):
-    """_dbus_keyring_reload: keys older than EXPIRE_KEYS_TIMEOUT (7 min) or more than 5 min in the future are dropped"""
-    return -300 <= age <= 420
+    keys = "/".join(item_str(it) for it in key_items(c)) or "-"
+    return "auth %s ctx=%s keyitems=%s kdir=%s steps=%s" % (env_str(c), "-" if c["ctx"] is None else hx(c["ctx"]), keys, c["kdir"], ",".join(step_str(s) for s in c["steps"]))
 
 
 def parse_impl(res):
@@ -153,23 +182,12 @@ def model_line(c, p, asserts):
         else:
             steps.append(step_str(s))
     ch = challenges(produced_output(c, p))
-    kok = context_valid(ctx)
-    cookies = {}
-    if c["kdir"] != "none" and kok:
-        for (i, age, sec) in c["keys"]:
-            if key_loaded(age) and i not in cookies:
-                cookies[i] = sec
-    kf = (p["end"] or {}).get("keyfile", "-")
-    if kf != "-":
-        for ent in kf.split("/"):
-            f = ent.split(":")
-            if len(f) == 3 and int(f[0]) not in cookies and key_loaded(int(f[1])):
-                cookies[int(f[0])] = f[2]
-    best = [] if (c["kdir"] == "bad" or not kok) else [str(i) for (i, _, _) in ch]
+    end = p["end"] or {}
+    now = int(end.get("now", 0)) or int(time.time())
     users = "/".join("%s:%d" % (n.encode().hex(), u) for n, u in sorted(USERS.items())) or "-"
-    return ("authm %s ctx=%s puid=%d users=%s kok=%d best=%s chals=%s cookies=%s asserts=%d steps=%s" % (
-        env_str(c), hx(ctx), PUID, users, 1 if kok else 0, "/".join(best) or "-", "/".join(h for (_, h, _) in ch) or "-",
-        "/".join("%d:%s" % kv for kv in sorted(cookies.items())) or "-", asserts, ",".join(steps))), ch, cookies
+    return ("authm %s ctx=%s puid=%d users=%s %s chals=%s asserts=%d steps=%s" % (
+        env_str(c), hx(ctx), PUID, users, world_str(key_items(c), ctx, c["kdir"], now, end.get("keyfile", "-")),
+        "/".join(h for (_, h, _) in ch) or "-", asserts, ",".join(steps))), ch, {}
 
 
 # ---------------------------------------------------------------------------
@@ -497,13 +515,20 @@ KNOWN_MECHS = [b"EXTERNAL", b"DBUS_COOKIE_SHA1", b"ANONYMOUS"]
 
 
 def load_known():
-    k = vlib.load_known("C08")
-    if not k:
-        # entries proposed by this package, not merged into known-findings.json yet
-        f = os.path.join(vlib.VERIF, "notes", "C08.findings.json")
-        if os.path.exists(f):
-            k = [e for e in json.load(open(f)) if e.get("property") == "C08" and e.get("status") == "known"]
-    return {e["id"]: e for e in k}
+    k = {e["id"]: e for e in vlib.load_known("C08")}
+    # entries proposed by this package that are not merged into known-findings.json yet (an id the shared file knows wins,
+    # whatever its status there)
+    shared = set()
+    try:
+        shared = set(e.get("id") for e in json.load(open(os.path.join(vlib.VERIF, "known-findings.json"))) if e.get("property") == "C08")
+    except (OSError, ValueError):
+        pass
+    f = os.path.join(vlib.VERIF, "notes", "C08.findings.json")
+    if os.path.exists(f):
+        for e in json.load(open(f)):
+            if e.get("property") == "C08" and e.get("status") == "known" and e["id"] not in shared:
+                k[e["id"]] = e
+    return k
 
 
 def fed_bytes(c, p):
@@ -815,6 +840,28 @@ def read_lines(sock, n, timeout=3.0):
     return parts[:-1], parts[-1], eof
 
 
+def read_keyfile(home):
+    try:
+        return [l for l in open(os.path.join(home, ".dbus-keyrings", DEFAULT_CTX.decode()), "rb").read().split(b"\n") if l]
+    except OSError:
+        return None
+
+
+def daemon_model_line(env, sent, got, before, now0, home, asserts):
+    """model input for a daemon conversation: the keyring world is the file as it was when the connection started, the keys
+    the daemon added since (read back like a client would), the daemon's clock ~ ours"""
+    env["steps"] = [x for dd in sent for x in (("F", dd), ("S", None))]
+    ml = model_line(env, {"fed": [], "steps": [], "end": {"keyfile": "-"}}, asserts)[0]
+    ch = challenges(b"".join(l + b"\r\n" for l in got))
+    after = read_keyfile(home) or []
+    old_ids = set(l.split()[0] for l in (before or []) if l.split())
+    newkeys = ["%s:%s" % (l.split()[0].decode(), l.split()[2].decode()) for l in after if len(l.split()) == 3 and l.split()[0] not in old_ids]
+    world = "now=%d file=%s dirp0=%d dirp=1 newkeys=%s" % (now0, "/".join(hx(l) for l in (before or [])) or "-", 0 if before is None else 1, "/".join(newkeys) or "-")
+    ml = re.sub(r" now=\S+ file=\S+ dirp0=\S+ dirp=\S+ newkeys=\S+", " " + world, ml)
+    ml = re.sub(r" chals=\S+", " chals=" + ("/".join(x[1] for x in ch) or "-"), ml)
+    return ml
+
+
 def run_leg2(ctx, known, stats):
     import socket, tempfile
     sys.path.insert(0, os.path.join(vlib.VERIF, "harness", "py"))
@@ -836,6 +883,8 @@ def run_leg2(ctx, known, stats):
             if not d.alive():
                 rep.violation("daemon died before script %s: %s" % (name, d.stderr()[-600:]), {"script": name})
                 break
+            file_before = read_keyfile(home) if os.path.isdir(os.path.join(home, ".dbus-keyrings")) else None
+            now0 = int(time.time())
             sk = socket.socket(socket.AF_UNIX, socket.SOCK_STREAM)
             sk.connect(d.sock)
             sk.sendall(b"\0")
@@ -871,23 +920,8 @@ def run_leg2(ctx, known, stats):
                     data = st
                 sent.append(data)
                 # what does the model expect after this much input?  (the daemon always writes out what it has)
-                env["steps"] = [x for dd in sent for x in (("F", dd), ("S", None))]
-                pseudo = {"fed": [], "steps": [], "end": {"keyfile": "-"}}
                 ch = challenges(b"".join(l + b"\r\n" for l in got))
-                ml = model_line(env, pseudo, asserts)[0]
-                # environment the daemon showed us: challenges and the cookie it created
-                cookies = {}
-                try:
-                    for cctx in set(x[2] for x in ch):
-                        for ln in open(os.path.join(home, ".dbus-keyrings", cctx.decode())):
-                            f = ln.split()
-                            if len(f) == 3:
-                                cookies[int(f[0])] = f[2]
-                except OSError:
-                    pass
-                ml = re.sub(r" best=\S+", " best=" + ("/".join(str(x[0]) for x in ch) or "-"), ml)
-                ml = re.sub(r" chals=\S+", " chals=" + ("/".join(x[1] for x in ch) or "-"), ml)
-                ml = re.sub(r" cookies=\S+", " cookies=" + ("/".join("%d:%s" % kv for kv in sorted(cookies.items())) or "-"), ml)
+                ml = daemon_model_line(env, sent, got, file_before, now0, home, asserts)
                 # a challenge the daemon has not issued yet cannot be known: run the model twice if needed
                 mres = vlib.run_one(info["model_auth"], ml)[0]
                 pm = parse_impl(mres)
@@ -905,21 +939,7 @@ def run_leg2(ctx, known, stats):
                 if (pm["end"] or {}).get("rc") in ("A", "D"):
                     break       # the conversation is over: anything sent now would be message data (or is never read)
             # final comparison against the model on the complete input
-            ch = challenges(b"".join(l + b"\r\n" for l in got))
-            cookies = {}
-            try:
-                for cctx in set(x[2] for x in ch):
-                    for ln in open(os.path.join(home, ".dbus-keyrings", cctx.decode())):
-                        f = ln.split()
-                        if len(f) == 3:
-                            cookies[int(f[0])] = f[2]
-            except OSError:
-                pass
-            env["steps"] = [x for dd in sent for x in (("F", dd), ("S", None))]
-            ml = model_line(env, {"fed": [], "steps": [], "end": {"keyfile": "-"}}, asserts)[0]
-            ml = re.sub(r" best=\S+", " best=" + ("/".join(str(x[0]) for x in ch) or "-"), ml)
-            ml = re.sub(r" chals=\S+", " chals=" + ("/".join(x[1] for x in ch) or "-"), ml)
-            ml = re.sub(r" cookies=\S+", " cookies=" + ("/".join("%d:%s" % kv for kv in sorted(cookies.items())) or "-"), ml)
+            ml = daemon_model_line(env, sent, got, file_before, now0, home, asserts)
             mres = vlib.run_one(info["model_auth"], ml)[0]
             pm = parse_impl(mres)
             mlines = produced_output(env, pm).split(b"\r\n")[:-1]
@@ -994,6 +1014,179 @@ def run_leg2(ctx, known, stats):
     stats["daemon_ok"] = n_ok
 
 
+# ---------------------------------------------------------------------------
+# leg 1b: the keyring object on its own (dbus-keyring.c vs Auth.Keyring)
+# ---------------------------------------------------------------------------
+K_AGES = [0, 10, 297, 298, 302, 303, 417, 418, 422, 423, 500, -10, -297, -298, -302, -303, -1000]
+K_IDS = [b"7", b"010", b"0x10", b"07", b"0x7", b" 7", b"+7", b"-7", b"-0", b"0", b"2147483647", b"2147483648", b"99999999999999999999", b"", b"x", b"7x", b"0x", b"\t7"]
+K_SECRETS = [b"aabb", b"AABB", b"aab", b"", b"zz", b"aabb ", b"aabb x", b"0", b"00" * 24]
+K_SEPS = [b" ", b"\t", b"  ", b" \t "]
+K_TPS = [b"", b"+", b" ", b"0", b"-", b"0x"]
+K_RAW = [b"", b"   ", b"7", b"7 12", b"7 0 aabb", b"7 -5 aabb", b"7 99999999999 aabb", b"7 9223372036854775808 aabb", b"7 12 aabb\xc3\xa9", b"# comment",
+         b"7  1 aabb", b"8\t1\taabb"]
+K_CTX = [None, b"ctxa", b"a/b", b"a.b", b"a b", b"\xc3\xa9", b"a\\b", b"a\tb", b"x" * 60]
+
+
+def keyring_case(items, ops, ctx=None, kdir="ok"):
+    return {"items": list(items), "ops": list(ops), "ctx": ctx, "kdir": kdir}
+
+
+def gen_keyring(rnd, tier):
+    K = lambda i, age, sec=b"aabb", sep=b" ", tp=b"": ("K", i, age, sec, sep, tp)
+    cases = []
+    std_ops = ["B", "H7", "H8", "H9", "B", "H7"]
+    for age in K_AGES:
+        cases.append(keyring_case([K(b"7", age)], ["H7", "B", "H7", "B"]))
+        cases.append(keyring_case([K(b"8", 500), K(b"7", age), K(b"9", 10)], std_ops))
+        cases.append(keyring_case([K(b"7", age), K(b"7", 10, b"ccdd")], std_ops))          # duplicate id: the first one counts
+        for kdir in ("bad", "none"):
+            cases.append(keyring_case([K(b"7", age)], ["H7", "B", "H7"], kdir=kdir))
+    for i in K_IDS:
+        cases.append(keyring_case([K(i, 10)], ["B", "H7", "H0", "H8", "H10", "H16", "H2147483647"]))
+    for sec in K_SECRETS:
+        cases.append(keyring_case([K(b"7", 10, sec)], ["B", "H7"]))
+    for sep in K_SEPS:
+        for tp in K_TPS:
+            cases.append(keyring_case([K(b"7", 10, b"aabb", sep, tp)], ["B", "H7"]))
+    for raw in K_RAW:
+        cases.append(keyring_case([("R", raw)], ["B", "H7", "H8"]))
+        cases.append(keyring_case([K(b"9", 10), ("R", raw), K(b"8", 20)], ["B", "H7", "H8", "H9"]))
+    for n in (8, 9, 10, 11, 12):          # MAX_KEYS_IN_FILE, with and without room for the key to add
+        items = [K(str(100 + j).encode(), 350) for j in range(n)]
+        cases.append(keyring_case(items, ["H107", "H108", "H109", "H110", "B", "H107", "H108", "H109", "H110", "B"]))
+        items = [K(str(100 + j).encode(), 350 if j < n - 1 else 10) for j in range(n)]
+        cases.append(keyring_case(items, ["B", "H%d" % (100 + n - 1), "H108", "H109"]))
+    for ctx in K_CTX:
+        cases.append(keyring_case([K(b"7", 10)], ["B", "H7"], ctx=ctx))
+    for _ in range(300 if tier == "quick" else 20000):
+        items = []
+        for _ in range(rnd.choice((0, 1, 2, 3, 5, 11))):
+            if rnd.random() < 0.15:
+                items.append(("R", rnd.choice(K_RAW)))
+            else:
+                items.append(K(rnd.choice(K_IDS[:8] + [b"7", b"8", b"9"]), rnd.choice(K_AGES), rnd.choice(K_SECRETS[:3] + [b"aabb", b"ccdd"]), rnd.choice(K_SEPS), rnd.choice(K_TPS[:2] + [b""] * 3)))
+        ops = [rnd.choice(("B", "B", "H7", "H8", "H9", "H0")) for _ in range(rnd.choice((1, 2, 4, 6)))]
+        cases.append(keyring_case(items, ops, ctx=rnd.choice((None, None, None, b"ctxa")), kdir=rnd.choice(("ok", "ok", "ok", "bad", "none"))))
+    return cases
+
+
+def keyring_impl_line(c):
+    return "keyring ctx=%s kdir=%s lines=%s ops=%s" % ("-" if c["ctx"] is None else hx(c["ctx"]), c["kdir"],
+                                                        "/".join(item_str(it) for it in c["items"]) or "-", ",".join(c["ops"]))
+
+
+def run_keyring(ctx, stats):
+    rep, tier, info = ctx["rep"], ctx["tier"], ctx["info"]
+    rnd = random.Random(ctx["seed"] + 5)
+    cases = gen_keyring(rnd, tier)
+    impl, icr = vlib.run_lines(info["auth_h"], [keyring_impl_line(c) for c in cases], shards=1 if len(cases) < 3000 else None)
+    for line, err in icr:
+        rep.violation("implementation crashed / sanitizer report on input `%s`: %s" % (line[:300], err[-700:]), {"impl_input": line, "stderr": err})
+    mlines = []
+    for c, r in zip(cases, impl):
+        f = dict(t.split("=", 1) for t in r.split() if "=" in t) if r != "!CRASH" else {}
+        if "now" not in f:
+            mlines.append("")
+            continue
+        cx = DEFAULT_CTX if c["ctx"] is None else c["ctx"]
+        mlines.append("keyringm ctx=%s %s ops=%s" % (hx(cx), world_str(c["items"], cx, c["kdir"], int(f["now"]), f.get("keyfile", "-")), ",".join(c["ops"])))
+    model, mcr = vlib.run_lines(info["model_auth"], mlines)
+    nontriv = 0
+    for c, r, ml, m in zip(cases, impl, mlines, model):
+        if not ml:
+            continue
+        it = [t for t in r.split() if t[:2] in ("B:", "H:") or t.startswith("new=")]
+        mt = [t for t in m.split() if t[:2] in ("B:", "H:") or t.startswith("new=")]
+        replay = {"impl_input": keyring_impl_line(c), "model_input": ml, "impl": r, "model": m}
+        if any(t.startswith("H:") and t != "H:-" for t in it):
+            nontriv += 1
+        # specification oracle on the implementation's answers (D-Bus specification, DBUS_COOKIE_SHA1: cookies that are old or
+        # more than a reasonable time in the future are deleted; a cookie that is not recent is not used for new challenges)
+        bad = keyring_oracle(c, r)
+        lenient = keyring_lenient_ids(c, r)
+        if lenient and not bad and it == mt:
+            kn = ctx.get("known", {})
+            if "F08c" in kn:
+                rep.known(kn["F08c"], keyring_impl_line(c)[:200])
+                stats["F08c"] = stats.get("F08c", 0) + 1
+            else:
+                rep.violation("keyring: %s on %s -> %s" % (lenient, keyring_impl_line(c)[:300], r[:200]), replay)
+        if bad:
+            rep.violation("keyring: %s on %s -> %s" % (bad, keyring_impl_line(c)[:300], r[:200]), replay)
+        elif it != mt:
+            replay["names"] = "correspondence auth_h/keyring vs Auth.Keyring"
+            rep.violation("keyring: implementation `%s`, model `%s` on %s" % (" ".join(it), " ".join(mt), keyring_impl_line(c)[:300]), replay, found_input=False)
+        else:
+            # a save happened: the file must hold exactly the model's key list
+            kf = dict(t.split("=", 1) for t in r.split() if "=" in t).get("keyfile", "-")
+            mk = dict(t.split("=", 1) for t in m.split() if "=" in t).get("keys", "")
+            if kf != "-" and any(re.fullmatch(r"[0-9a-f]{48}", e.split(":")[2]) and int(e.split(":")[1]) <= 2 for e in kf.split("/") if e.count(":") == 2):
+                fk = ["%s:%s" % (e.split(":")[0], e.split(":")[2].lower()) for e in kf.split("/")]
+                if fk != [x for x in mk.split("/") if x]:
+                    replay["names"] = "correspondence (saved file) auth_h/keyring vs Auth.Keyring.reload"
+                    rep.violation("keyring: file saved as %s, model key list %s" % (fk[:6], mk[:200]), replay, found_input=False)
+    stats["keyring"] = len(cases)
+    stats["keyring_nontrivial"] = nontriv
+    cleanup_tmp()
+
+
+def c_int(text):
+    """strtol (text, ., 0) of a whole word, None if it is not one"""
+    t = text.strip(b" \t").decode("latin-1")
+    m = re.fullmatch(r"([+-]?)(0[xX][0-9a-fA-F]+|0[0-7]*|[1-9][0-9]*)", t)
+    if not m:
+        return None
+    d = m.group(2)
+    v = int(d, 16) if d[:2].lower() == "0x" else (int(d, 8) if d.startswith("0") and len(d) > 1 else int(d))
+    return -v if m.group(1) == "-" else v
+
+
+def keyring_lenient_ids(c, r):
+    """the specification's cookie id is a non-negative decimal integer: a key served under an id that no line spells that way"""
+    ans = [t for t in r.split() if t[:2] in ("B:", "H:")]
+    for op, a in zip(c["ops"], ans):
+        if op[0] == "H" and a != "H:-":
+            i = int(op[1:])
+            spelled = [it for it in c["items"] if it[0] == "K" and re.fullmatch(rb"0|[1-9][0-9]*", it[1]) and int(it[1]) == i]
+            other = [it for it in c["items"] if it[0] == "K" and c_int(it[1]) == i and it not in spelled]
+            if not spelled and other and all(it[0] == "K" for it in c["items"]):
+                return "cookie %d served from a line whose id field is %r" % (i, other[0][1])
+    return None
+
+
+def keyring_oracle(c, r):
+    """property oracle on the implementation's answers, from an independent reading of the file items (D-Bus specification,
+    DBUS_COOKIE_SHA1: cookies that are old or too far in the future are deleted; only a recent cookie is announced):
+    a served key must stem from a line that is neither expired nor future-dated, an announced key from a recent one"""
+    f = dict(t.split("=", 1) for t in r.split() if "=" in t)
+    cx = DEFAULT_CTX if c["ctx"] is None else c["ctx"]
+    ctx_ok = len(cx) > 0 and all(0 < b < 128 and b not in b"/\\ \n\r\t." for b in cx)      # the specification's context-name rule
+    if f.get("new") == "1" and not ctx_ok:
+        return "a keyring was opened for the context name %r, which the specification forbids" % cx
+    if any(it[0] == "R" and len(it[1].split()) >= 3 for it in c["items"]):
+        return None
+    created = set()
+    if f.get("keyfile", "-") != "-":
+        created = set(int(e.split(":")[0]) for e in f["keyfile"].split("/") if e.count(":") == 2 and int(e.split(":")[1]) <= 2 and re.fullmatch(r"[0-9a-f]{48}", e.split(":")[2]))
+    ages = {}
+    for it in c["items"]:
+        if it[0] == "K":
+            i = c_int(it[1])
+            if i is not None:
+                ages.setdefault(i, []).append(it[2])
+    ans = [t for t in r.split() if t[:2] in ("B:", "H:")]
+    for op, a in zip(c["ops"], ans):
+        if op[0] == "H" and a != "H:-":
+            i = int(op[1:])
+            if i not in created and not any(-305 <= g <= 425 for g in ages.get(i, [])):
+                return "key %d served although no line for it is within the validity window (ages %s)" % (i, ages.get(i))
+        if op == "B" and a != "B:-1":
+            i = int(a[2:])
+            if i not in created and not any(-305 <= g <= 305 for g in ages.get(i, [])):
+                return "key %d announced for a new challenge although no line for it is recent (ages %s)" % (i, ages.get(i))
+    return None
+
+
 def gen_aux(rnd, tier):
     """SHA-1, hex decoding and uid parsing: library vs model vs an independent implementation"""
     lines, expect = [], []
@@ -1056,12 +1249,15 @@ def run(ctx):
     dist, nontrivial, nrun = run_leg1(ctx, cases, known, stats)
     t1 = time.time()
     run_aux(ctx, stats)
+    ctx["known"] = known
+    run_keyring(ctx, stats)
     t2 = time.time()
     run_leg2(ctx, known, stats)
     t3 = time.time()
     sample_idx = list(range(0, len(cases), max(1, len(cases) // 10)))[:10]
     rep.coverage.update({
-        "evaluations": nrun + stats.get("aux", 0) + stats.get("daemon_scripts", 0),
+        "evaluations": nrun + stats.get("aux", 0) + stats.get("keyring", 0) + stats.get("daemon_scripts", 0),
+        "keyring_cases": stats.get("keyring", 0), "keyring_cases_serving_a_key": stats.get("keyring_nontrivial", 0),
         "distinct_nontrivial": len(nontrivial),
         "rule": "in-process: corpus, identity strings (%d uid spellings x socket uids, both as initial response and as DATA), cookie exchanges "
                 "(7 keyring contents x 3 directory states x 6 response variants x 4 separators, wrong secrets, contexts, retry / OK-CANCEL-other-mechanism orders), "
